@@ -211,11 +211,13 @@ def generate(run_seed, mode='seq'):
                              'longdouble', 'f16'])
     tasks = []
     if mode == 'seq' and rng.random() < 0.04:
-        # one or two LONG EpsAlg histories (105..125 terms of a stream whose high-order table entries
-        # stay well defined), compared with the exact table all the way; a Dea runs alongside
+        # one or two LONG EpsAlg histories (105..125 terms, one time in four 126..200 = the upper end
+        # of the quantifier, of a stream whose high-order table entries stay well defined), compared
+        # with the exact table all the way; a Dea runs alongside
         ops = []
-        for j in range(rng.randint(1, 2)):
-            n = rng.randint(105, 125)
+        very_deep = rng.random() < 0.25
+        for j in range(1 if very_deep else rng.randint(1, 2)):
+            n = rng.randint(126, 200) if very_deep else rng.randint(105, 125)
             fam = rng.choice(['random', 'random', 'series'])
             terms, meta = FAMILIES[fam](rng, n)
             meta['deep'] = True
@@ -225,7 +227,7 @@ def generate(run_seed, mode='seq'):
         ops.append({'op': 'spawn', 'i': 't0.d0', 'terms': terms, 'meta': meta, 'np': None, 'cls': 'Dea',
                     'limexp': rng.randint(3, 60)})
         names = [o['i'] for o in ops]
-        for k in range(125):
+        for k in range(200 if very_deep else 125):
             for nm in names:
                 ops.append({'op': 'feed', 'i': nm})
         return {'property': ID, 'mode': mode, 'tasks': [{'ops': ops}], 'trace': False, 'deep_epsalg': True}
@@ -538,7 +540,7 @@ def _unbits(b):
     return struct.unpack('<d', b)[0]
 
 
-MAX_EXACT_TERMS = {'quick': 60, 'thorough': 120}
+MAX_EXACT_TERMS = {'quick': 60, 'thorough': 200}
 
 
 def check_epsalg(terms, recs, deep=False):
@@ -549,7 +551,7 @@ def check_epsalg(terms, recs, deep=False):
     tab = ExactTable()
     cap = MAX_EXACT_TERMS.get(os.environ.get('VERIF_TIER_EFFECTIVE', 'quick'), 60)
     if deep:
-        cap = max(cap, 130)
+        cap = max(cap, 205)
     for k, rec in enumerate(recs):
         if k >= cap:
             break
